@@ -84,7 +84,14 @@ func (b *Builder) cache(mKey interface{}, cachedMocker Mocker) {
 // Struct 指定结构体实例
 // 比如需要 mock 结构体函数 (*conn).Write(b []byte)，则 name="conn"
 func (b *Builder) Struct(instance interface{}) *CachedMethodMocker {
-	mKey := reflect.ValueOf(instance).Type().String()
+	// Type.String() names the package by its last path element only: two types called
+	// model.User from different packages must not share a mocker
+	typ := reflect.ValueOf(instance).Type()
+	elem := typ
+	for elem.Kind() == reflect.Ptr {
+		elem = elem.Elem()
+	}
+	mKey := elem.PkgPath() + "/" + typ.String()
 	if mocker, ok := b.mockers[mKey]; ok && !mocker.Canceled() {
 		b.reset2CurPkg()
 		return mocker.(*CachedMethodMocker)
